@@ -1387,7 +1387,7 @@ class C14(Prop):
     n_thorough = 20000
     design_ref = "DESIGN.md §4 C14"
     assumptions = [
-        "proved for the lexer model of C10 (coq/model/Lexer.v, tied to preprocess/src/lexer.rs by C10's correspondence run and regenerated tables), partial: a blank (space, tab, line feed) directly after an identifier, keyword, reserved word, operator symbol or string literal leaves that token and, from there on, the sequence of non-whitespace tokens unchanged; so does any run of blanks, block comments, line comments with their line feed and line splices after such a token that does not begin with a slash (C14_*_partial); numeric literals in front of the trivia, tokens before the one in front of the insertion point, and the layers after the lexer are not covered by a theorem",
+        "proved for the lexer model of C10 (coq/model/Lexer.v, tied to preprocess/src/lexer.rs by C10's correspondence run and regenerated tables), partial: a blank (space, tab, line feed) directly after an identifier, keyword, reserved word, operator symbol or string literal leaves that token and, from there on, the sequence of non-whitespace tokens unchanged; so does any run of blanks, block comments, line comments with their line feed and line splices after such a token that does not begin with a slash, at the start of the file, after its first token, or after a token that follows a prefix of such tokens separated by single blanks (C14_*_partial); numeric literals in front of the trivia, prefixes whose tokens touch, and the layers after the lexer are not covered by a theorem",
         "proved: the location arithmetic of SourceManager (line/column decoding, per-file ranges); the model is compared with SourceManager on every offset of small multi-file sets",
         "observed on the implementation only (metamorphic): a program and the same program with trivia inserted at token boundaries (never directly after < or >, never between a #define name and its parenthesis, inline trivia only inside directive lines, #include/#pragma lines untouched) give byte-identical output and metadata on HLSL and MSL, or the same messages; k lines in front of every file move every reported line by k with file, column, message, source excerpt and caret line unchanged",
         "token boundaries are found by a coarse tokenizer of the harness whose pieces are unions of real tokens (identifiers, numbers with fraction / exponent / suffix, the period of a member access or swizzle, strings, runs of operator characters, single other characters), so every insertion point is a real token boundary (not every real boundary is tried); when a varied program differs, each insertion is tried alone and the first that is enough is reported with the text around it",
